@@ -16,6 +16,9 @@ type c18Req struct {
 	Line   int
 	Col    int    // a column inside the string
 	Class  string // generator's label (exact, suffix, init, missing, near-miss, so, ...)
+	// a member read through the variable that holds the module (print(m.id)): its definition lies in the file the analysis
+	// loaded for the module string. MLine < 0: none
+	MLine, MCol int
 }
 
 type c18Tree struct {
@@ -25,7 +28,8 @@ type c18Tree struct {
 }
 
 func c18GenTree(r *Rng) c18Tree {
-	dirs := []string{"", "lib", "lib/net", "app", "app/ui", "vendor/x"}
+	// (two directories are named like modules: a path can contain a module's name before its last component)
+	dirs := []string{"", "lib", "lib/net", "app", "app/ui", "vendor/x", "util/skins", "core"}
 	names := []string{"util", "core", "socket", "view", "conf", "leaf"}
 	files := map[string]string{}
 	n := r.Range(3, 10)
@@ -61,7 +65,7 @@ func c18GenTree(r *Rng) c18Tree {
 			text = fmt.Sprintf("dofile(\"%s\")", mod)
 		}
 		col := strings.Index(text, "\""+mod) + 1 + len(mod)/2
-		t.Reqs = append(t.Reqs, c18Req{Kind: kind, Module: mod, Line: len(lines), Col: col, Class: class})
+		t.Reqs = append(t.Reqs, c18Req{Kind: kind, Module: mod, Line: len(lines), Col: col, Class: class, MLine: -1})
 		lines = append(lines, text)
 	}
 	var rels []string
@@ -110,6 +114,15 @@ func c18GenTree(r *Rng) c18Tree {
 	add("require", "ib.util", "near-miss-partial-directory")
 	if _, ok := files["native/fast.so"]; ok {
 		add("require", "native.fast", "native-so")
+	}
+	for i := range t.Reqs {
+		if t.Reqs[i].Kind == "dofile" {
+			continue
+		}
+		text := fmt.Sprintf("print(m%d.id)", t.Reqs[i].Line)
+		t.Reqs[i].MLine = len(lines)
+		t.Reqs[i].MCol = strings.Index(text, ".id") + 2
+		lines = append(lines, text)
 	}
 	lines = append(lines, "print(1)")
 	files["main.lua"] = strings.Join(lines, "\n") + "\n"
@@ -262,6 +275,21 @@ func c18Check(c *Ctx, t c18Tree, r *Rng, tag string, dotted bool) {
 			case !inCands(defFile):
 				c.Report(fmt.Sprintf("definition|wrong-file|%s|%s|%s", rq.Class, phase, layout),
 					fmt.Sprintf("%s(%q): definition leads to %s, candidates are %v", rq.Kind, rq.Module, defFile, cands), witness)
+			}
+			if len(cands) > 0 && len(locs) > 0 && rq.MLine >= 0 {
+				// the file the analysis loaded (where the module's member is defined) is the file the string leads to
+				ml, _, err := srv.Definition(mainURI, rq.MLine, rq.MCol)
+				if err != nil {
+					c.Inconclusive("server stopped answering (C01's business)")
+					return false
+				}
+				if len(ml) > 0 && strings.HasSuffix(ws.Rel(ml[0].URI), ".lua") && ws.Rel(ml[0].URI) != t.Main {
+					c.Count("loaded_file_vs_definition_compared", 1)
+					if lf := ws.Rel(ml[0].URI); lf != defFile {
+						c.Report(fmt.Sprintf("definition|differs-from-loaded-file|%s|%s|%s", rq.Class, phase, layout),
+							fmt.Sprintf("%s(%q): definition on the string leads to %s, but the member read through the module variable is defined in %s (candidates %v)", rq.Kind, rq.Module, defFile, lf, cands), witness)
+					}
+				}
 			}
 			if len(cands) > 0 && len(locs) > 0 {
 				// hover must name (a suffix of) the file definition leads to
